@@ -3,6 +3,7 @@
    wrapper's plan is a function of the layout-free view (H-W2, H-W4) is decided by the oracle. *)
 From PasfmtVerif Require Import Model.Spacing Proofs.SpacingProofs Model.Rewriters Proofs.RewritersProofs
   Model.MLString Proofs.MLStringProofs Model.Pipeline Proofs.PipelineProofs.
+From PasfmtVerif Require Import Model.Rewriters Model.Lexer Proofs.RewritersProofs Proofs.CommentIdemProofs.
 
 Theorem C03_spacing_idempotent : forall l, token_spacing (token_spacing l) = token_spacing l.
 Proof. exact spacing_idempotent. Qed.
@@ -46,3 +47,34 @@ Theorem C03_emitted_nl_exact :
   f_nl f <= 65535 ->
   f_nl (fmt_of_ws (Reconstruct.emit_ws (rs_new crlf tabs iw cw) false (tok, f)) ign) = f_nl f.
 Proof. exact fmt_of_emit_ws_nl. Qed.
+
+(* ---- the comment / directive rewriter is a fixpoint of itself (Proofs/CommentIdemProofs.v), for any
+   char::is_alphanumeric; valid UTF-8 is needed for separator lines only (refuted without) ---- *)
+Theorem C03_line_comment_idempotent :
+  forall (alnum : bytes -> bool) (c c' : bytes),
+  valid_utf8 c = true ->
+  format_line_comment alnum c = Some c' -> format_line_comment alnum c' = None.
+Proof. exact format_line_comment_idempotent. Qed.
+
+Theorem C03_directive_idempotent :
+  forall c c' : bytes,
+  format_compiler_directive c = Some c' -> format_compiler_directive c' = None.
+Proof. exact format_compiler_directive_idempotent. Qed.
+
+Theorem C03_comment_stage_idempotent :
+  forall (alnum : bytes -> bool) (l : list ftoken),
+  Forall (fun p : ftoken => valid_utf8 (t_content (fst p)) = true) l ->
+  comment_formatter alnum (comment_formatter alnum l) = comment_formatter alnum l.
+Proof. exact comment_formatter_idem_valid. Qed.
+
+Theorem C03_line_comment_some_means_changed :
+  forall (alnum : bytes -> bool) (c c' : bytes),
+  format_line_comment alnum c = Some c' -> c' <> c.
+Proof. exact format_line_comment_changes. Qed.
+
+Theorem C03_line_comment_idempotent_needs_utf8 :
+  exists (alnum : bytes -> bool) (c c' c'' : bytes),
+    valid_utf8 c = false /\
+    format_line_comment alnum c = Some c' /\ format_line_comment alnum c' = Some c''.
+Proof. exact format_line_comment_idempotent_refuted. Qed.
+
